@@ -105,7 +105,7 @@ func c11Client(c *Ctx, r *gen.R, items []*rtItem, _ int, driverOK bool) error {
 	for i, k := range all {
 		op := map[string]any{"op": "call", "id": fmt.Sprint(i), "rpc": k.mi.svc.Name + "." + k.mi.m.Name, "req_type": strings.TrimPrefix(k.mi.m.Input, "."),
 			"req": map[string]any{}, "canned_mode": "raw", "canned_status": k.status, "canned_body": b64(k.body), "canned_repeat": k.repeat,
-			"canned_headers": [][2]string{{"Content-Type", gen.Pick(gen.New(int64(i)), []string{"application/json", "application/x-protobuf", "text/html", ""})}},
+			"canned_headers": [][2]string{{"Content-Type", gen.Pick(gen.New(int64(i)), []string{"application/json", "application/x-protobuf", "text/html", "", "json", "text", "; charset=utf-8", "garbage", "application/", "/", "*/*", "APPLICATION/JSON", "application/json; charset=utf-8", "application/problem+json", "\x7f\x00/\xff"})}},
 			"handler": map[string]any{"kind": "ok"}}
 		if k.clientCT != "" {
 			op["client_ct"] = k.clientCT
